@@ -624,9 +624,10 @@ def gen_host_case(rng, idx):
     # the schedule: a seed for the per-turn choices, so the replay is self-contained
     # two cases in five also cancel tasks at seeded points of the schedule (a caller queued on the
     # semaphore, the owner of the outstanding command before / after its response, a finished task)
-    cancel_rate = [0, 12, 0, 25, 0][idx % 5]
+    cancel_rate = [0, 12, 0, 25, 0, 12][idx % 6]
+    lose_rate = [0, 0, 0, 0, 8, 8][idx % 6]       # the transport is lost at a seeded turn (fix D16k)
     return {'kind': 'host', 'mode': mode, 'tasks': tasks, 'credits': credits, 'sched_seed': rng.below(1 << 32),
-            'script': None, 'cancel_rate': cancel_rate}
+            'script': None, 'cancel_rate': cancel_rate, 'lose_rate': lose_rate}
 
 
 LAST_CANCEL_KINDS = {}
@@ -636,6 +637,11 @@ async def _run_host_case(case):
     """Returns (trace, callers, status) — see campaign_host."""
     from bumble import hci
     from bumble.host import Host
+    try:
+        from bumble.transport.common import TransportLostError
+    except ImportError:           # older trees
+        class TransportLostError(Exception):
+            pass
     from bumble.controller import Controller
     from lib.verif import Rng
 
@@ -715,6 +721,10 @@ async def _run_host_case(case):
             trace.append(['call', c, cmd.op_code])
             try:
                 resp = await host.send_command(cmd)
+            except TransportLostError:
+                callers[c][1] = 'lost'
+                trace.append(['lost', c])
+                continue
             except asyncio.CancelledError:
                 if not closing[0]:
                     callers[c][1] = 'cancelled'
@@ -756,6 +766,22 @@ async def _run_host_case(case):
         await asyncio.sleep(0)
         await asyncio.sleep(0)
 
+    lost = [False]
+
+    def lose():
+        """the transport reports its loss: nothing crosses it any more"""
+        if lost[0]:
+            return
+        lost[0] = True
+        trace.append(['lose'])
+        to_ctrl.clear()
+        from_ctrl.clear()
+        try:
+            host.on_transport_lost()
+        except Exception as e:      # noqa
+            trace.append(['host-error', type(e).__name__])
+
+    lose_rate = case.get('lose_rate', 0)
     cancel_rate = case.get('cancel_rate', 0)
     pending_tasks = list(case['tasks'])
     tasks = []
@@ -778,6 +804,8 @@ async def _run_host_case(case):
             elif act[0] == 'drop' and to_ctrl:
                 to_ctrl.pop(0)
                 trace.append(['drop'])
+            elif act[0] == 'lose':
+                lose()
             elif act[0] == 'cancel':
                 await cancel_task(act[1])
             elif act[0] == 'hostcancel' and from_ctrl:
@@ -786,13 +814,15 @@ async def _run_host_case(case):
         else:
             if pending_tasks and rng.chance(1, 2):
                 tasks.append(asyncio.ensure_future(task_body(pending_tasks.pop(0))))
-            if to_ctrl and rng.chance(1, 2):
+            if to_ctrl and not lost[0] and rng.chance(1, 2):
                 deliver_to_ctrl()
-            if from_ctrl and rng.chance(1, 2):
+            if from_ctrl and not lost[0] and rng.chance(1, 2):
                 deliver_to_host()
             if cancel_rate and tasks and rng.chance(cancel_rate, 100):
                 await cancel_task(rng.below(len(tasks)))
-        if not pending_tasks and not script and all(t.done() for t in tasks) and not to_ctrl and not from_ctrl:
+            if lose_rate and tasks and rng.chance(lose_rate, 100):
+                lose()
+        if not pending_tasks and not script and all(t.done() for t in tasks) and (lost[0] or (not to_ctrl and not from_ctrl)):
             break
         if steps > budget:
             hung = True
@@ -814,6 +844,7 @@ def host_oracle(trace, callers, hung, expect_block=False):
     cancellation of the caller owning a still unanswered command is reported under the
     signature of that witness class (known finding D03m)."""
     unanswered = []             # callers whose command is with the controller, oldest first
+    lost = False
     ops = {}
     owner_cancel = False
 
@@ -824,6 +855,8 @@ def host_oracle(trace, callers, hung, expect_block=False):
         if ev[0] == 'call':
             ops[ev[1]] = ev[2]
         elif ev[0] == 'send':
+            if lost:
+                return (sig('B:sent-after-loss'), f'command {ev[2]:#06x} of caller {ev[1]} sent after the transport was lost')
             unanswered.append(ev[1])
             if len(unanswered) > 1:
                 return (sig('B:two-outstanding'), f'command {ev[2]:#06x} of caller {ev[1]} sent while the command of caller '
@@ -834,6 +867,12 @@ def host_oracle(trace, callers, hung, expect_block=False):
         elif ev[0] == 'drop':
             if unanswered:
                 unanswered.pop(0)
+        elif ev[0] == 'lose':
+            lost = True
+            unanswered.clear()      # whatever was in flight is gone with the transport
+        elif ev[0] == 'lost':
+            if not lost:
+                return (sig('B:spurious-transport-lost'), f'send_command of caller {ev[1]} raised TransportLostError before any loss')
         elif ev[0] == 'cancel':
             if ev[1] in unanswered:
                 owner_cancel = True
@@ -882,6 +921,14 @@ def trace_to_labels(trace):
         elif ev[0] == 'resumed':
             labels.append(f'Resume {coq_z(ev[1])}')
             obs.append((1, ev[1], ev[2]))
+        elif ev[0] == 'lose':
+            labels.append('Lose')
+            inflight.clear()
+        elif ev[0] == 'lost':
+            # the owner is resumed with the exception; a queued caller fails right after acquiring
+            sent = any(e[0] == 'send' and e[1] == ev[1] for e in trace)
+            labels.append(f'Resume {coq_z(ev[1])}' if sent else f'Acquire {coq_z(ev[1])}')
+            obs.append((4, ev[1], 0))
         elif ev[0] == 'cancelled':
             # the model's Cancel step is the moment the cancelled task runs (CancelledError leaves
             # _send_command); the harness makes no delivery between task.cancel() and that moment
@@ -941,6 +988,16 @@ B_SCRIPTED = [
     {'name': 'cancel-owner-unanswered-queued', 'tasks': [[0], [2]], 'credits': [1, 1], 'expect_block': False,
      'script': [['start'], ['start'], ['idle'], ['cancel', 0], ['idle'], ['ctrl'], ['host'], ['idle'], ['ctrl'],
                 ['host'], ['idle'], ['idle']]},
+    # transport lost while a command is outstanding and two callers are queued: the owner fails with
+    # TransportLostError, the queued callers fail as soon as they get the gate, a later caller too
+    {'name': 'transport-lost-outstanding', 'tasks': [[0], [2], [5], [7]], 'credits': [1, 1, 1, 1], 'expect_block': False,
+     'script': [['start'], ['start'], ['start'], ['idle'], ['lose'], ['idle'], ['idle'], ['idle'], ['start'], ['idle'],
+                ['idle']]},
+    # transport lost after the response arrived but before its task ran; and with nothing pending
+    {'name': 'transport-lost-after-response', 'tasks': [[0], [2]], 'credits': [1, 1], 'expect_block': False,
+     'script': [['start'], ['start'], ['ctrl'], ['host'], ['lose'], ['idle'], ['idle'], ['idle']]},
+    {'name': 'transport-lost-idle', 'tasks': [[0], [2]], 'credits': [1, 1], 'expect_block': False,
+     'script': [['start'], ['ctrl'], ['host'], ['idle'], ['idle'], ['lose'], ['start'], ['idle'], ['idle']]},
     # a swallowed command blocks everybody (the D03a/b behaviour seen from the host)
     {'name': 'dropped-command-blocks', 'tasks': [[10], [0]], 'credits': [1, 1], 'expect_block': True,
      'script': [['start'], ['start'], ['drop'], ['idle'], ['idle'], ['idle']]},
@@ -953,7 +1010,7 @@ def campaign_host(ctx):
     for sc in B_SCRIPTED:
         cases.append({'kind': 'host', 'mode': 'scripted', 'tasks': sc['tasks'], 'credits': sc['credits'],
                       'sched_seed': 0, 'script': sc['script'], 'expect_block': sc['expect_block'], 'name': sc['name'],
-                      'cancel_rate': 0})
+                      'cancel_rate': 0, 'lose_rate': 0})
     for f in sorted(os.listdir(CORPUS)) if os.path.isdir(CORPUS) else []:
         with open(os.path.join(CORPUS, f)) as fh:
             obj = json.load(fh)
@@ -971,7 +1028,7 @@ def campaign_host(ctx):
     model = ctx.coq_eval(['Model.HostCmd'], exprs)
     for (case, trace, callers, hung, obs, errors, ckinds), m in zip(runs, model):
         ncallers = len(callers)
-        ctx.case(('B', case['mode'], case['tasks'], case['credits'], case['sched_seed'], case.get('script'), case.get('cancel_rate')),
+        ctx.case(('B', case['mode'], case['tasks'], case['credits'], case['sched_seed'], case.get('script'), case.get('cancel_rate'), case.get('lose_rate')),
                  ncallers >= 2, {'kind': 'host', 'mode': case['mode'], 'tasks': case['tasks']} if ctx.evaluations % 200 == 3 else None)
         ctx.count('B.cases')
         ctx.count('B.mode.' + case['mode'])
@@ -980,6 +1037,8 @@ def campaign_host(ctx):
         ctx.count('B.callback_errors', len(errors))
         for k, v in ckinds.items():
             ctx.count('B.cancel.' + k, v)
+        if any(ev[0] == 'lose' for ev in trace):
+            ctx.count('B.cases_with_transport_loss')
         if case.get('cancel_rate') or any(a[0] in ('cancel', 'hostcancel') for a in (case.get('script') or [])):
             ctx.count('B.cases_with_cancellation')
         replay = dict(case)
@@ -991,13 +1050,13 @@ def campaign_host(ctx):
             ctx.disagree('HostCmd trace acceptance', replay, 'trace rejected by the model', trace[-8:])
             continue
         mobs, mphases, (mq, mall, mout) = m[1]
-        impl_phases = sorted([c, {'pending': None, 'done': 2, 'assert': 3, 'cancelled': 4}.get(st, 3)]
+        impl_phases = sorted([c, {'pending': None, 'done': 2, 'assert': 3, 'cancelled': 4, 'lost': 5}.get(st, 3)]
                              for c, (op, st) in callers.items())
-        model_phases = sorted([c, ph if ph in (2, 3, 4) else None] for (c, ph, r) in mphases)
+        model_phases = sorted([c, ph if ph in (2, 3, 4, 5) else None] for (c, ph, r) in mphases)
         if [tuple(x) for x in mobs] != obs or impl_phases != model_phases:
             ctx.disagree('HostCmd observations', replay, [mobs, model_phases], [obs, impl_phases])
         resumed_with = {ev[1]: ev[2] for ev in trace if ev[0] == 'resumed'}
-        all_done = all(st == 'cancelled' or (st == 'done' and resumed_with.get(c) == op)
+        all_done = all(st in ('cancelled', 'lost') or (st == 'done' and resumed_with.get(c) == op)
                        for c, (op, st) in callers.items())
         if bool(mall) != all_done:
             ctx.disagree('HostCmd all_answered', replay, mall, all_done)
